@@ -1,9 +1,44 @@
 import Lean.Data.Json
 import FinProtoc
-open Lean FinProtoc.Dsl
+open Lean FinProtoc FinProtoc.Dsl
 
 def tokJson (t : RawTok) : Json :=
   Json.arr #[t.kind.name, t.text, (t.line : Nat), (t.col : Nat), ((if t.hidden then 1 else 0 : Nat))]
+
+def reasonJ (r : Explain.Reason) : Json :=
+  Json.mkObj [("side", r.side), ("packet", r.packet), ("field", r.field), ("kind", r.kind), ("attr", r.attr),
+              ("expected", r.expected), ("got", r.got)]
+
+def fuelFor (_vs : List Val) : Nat := 64
+
+/-- the property evaluated directly on the real IR for one message -/
+def tryMessage (S : Schema) (P : IR.Prog) (pkt : String) (vs : List Val) : List (String × Json) :=
+  let regs : List (String × Registry) :=
+    [("none", fun _ => none), ("sum", fun _ => some fun b => b.foldl (fun a x => a + x.toNat) 7),
+     ("len", fun _ => some fun b => b.length * 2654435761 + 1)]
+  regs.foldl (fun acc (rn, reg) =>
+    if !acc.isEmpty then acc else
+    let pre : Bytes := [0xEE, 0x01]
+    match Wire.enc S reg pkt vs pre with
+    | none => acc
+    | some want =>
+      let got := IR.encStruct P reg (fuelFor vs) pkt vs pre
+      if got ≠ some want then
+        [("fail", "enc"), ("registry", rn), ("packet", pkt), ("message", Load.valToJ (.struct vs)),
+         ("expected", Load.bytesJ (want.drop 2)), ("got", match got with | some g => Load.bytesJ (g.drop 2) | none => Json.null)]
+      else
+        let sfx : Bytes := [0xAB, 0xCD]
+        match IR.decStruct P (fuelFor vs) pkt (want.drop 2 ++ sfx) with
+        | none => [("fail", "dec"), ("registry", rn), ("packet", pkt), ("message", Load.valToJ (.struct vs)),
+                   ("bytes", Load.bytesJ (want.drop 2)), ("got", Json.null)]
+        | some (vs', rest) =>
+          -- re-encode what was decoded: must reproduce the bytes and leave the suffix
+          let again := IR.encStruct P reg (fuelFor vs) pkt vs' pre
+          if rest ≠ sfx || again ≠ some want then
+            [("fail", "dec"), ("registry", rn), ("packet", pkt), ("message", Load.valToJ (.struct vs)),
+             ("bytes", Load.bytesJ (want.drop 2)), ("decoded", Load.valToJ (.struct vs')), ("rest", Load.bytesJ rest),
+             ("reencoded", match again with | some g => Load.bytesJ (g.drop 2) | none => Json.null)]
+          else acc) []
 
 def handle (req : Json) : Json :=
   let op := (req.getObjValAs? String "op").toOption.getD ""
@@ -15,6 +50,37 @@ def handle (req : Json) : Json :=
     | none => Json.mkObj [("errors", (1 : Nat))]
     | some (cst, rest) =>
       Json.mkObj [("errors", (0 : Nat)), ("tree", cst.dump), ("leftover", (rest.length : Nat))]
+  | "conform" | "search" =>
+    match parse text with
+    | none => Json.mkObj [("error", "syntax")]
+    | some (cst, _) =>
+      match specOf cst with
+      | none => Json.mkObj [("error", "no-spec")]
+      | some S =>
+        match req.getObjVal? "prog" >>= Load.progJ with
+        | .error e => Json.mkObj [("load_error", e)]
+        | .ok P =>
+          if op = "conform" then
+            let re := Explain.explainEnc S P
+            let rd := Explain.explainDec S P
+            let ce := Conforms.confEnc S P
+            let cd := Conforms.confDec S P
+            Json.mkObj [("enc", ce), ("dec", cd), ("consistent", (re.isEmpty == ce) && (rd.isEmpty == cd)),
+                        ("reasons", Json.arr ((re ++ rd).map reasonJ).toArray),
+                        ("packets", (S.packets.length : Nat))]
+          else
+            let n := (req.getObjValAs? Nat "tries").toOption.getD 50
+            let seed := (req.getObjValAs? Nat "seed").toOption.getD 0
+            let only := (req.getObjValAs? String "packet").toOption
+            let pk := S.packets.filter fun p => only.isNone || only = some p.name
+            let res := pk.foldl (fun acc p =>
+              if !acc.isEmpty then acc else
+              (List.range n).foldl (fun acc i =>
+                if !acc.isEmpty then acc else
+                match Sample.genPacket S p.name (seed * 1000 + i) with
+                | some vs => tryMessage S P p.name vs
+                | none => acc) acc) []
+            Json.mkObj (("tried", ((pk.length * n : Nat) : Json)) :: res)
   | _ => Json.mkObj [("error", "unknown op")]
 
 partial def loop (hin hout : IO.FS.Stream) : IO Unit := do
